@@ -5,7 +5,7 @@
    parent timeouts on the simulated fabric and checks them in Coq against this model. *)
 From Coq Require Import List Arith String.
 Import ListNotations.
-From LSF Require Import Tokens TokensProofs.
+From LSF Require Import Tokens TokensProofs Children ChildrenProofs.
 
 Theorem C15_callback_completes_exactly_its_task : forall s t r,
   In t (waiting s) ->
@@ -16,7 +16,7 @@ Proof. exact callback_completes_its_task. Qed.
 Theorem C15_foreign_token_affects_no_task : forall s t r, ~ In t (waiting s) -> tstep s (TCallback t r) = s.
 Proof. exact foreign_token_affects_nothing. Qed.
 
-Theorem C15_completed_at_most_once : forall l t, completions_of t (trun tinit l) <= starts_of t l.
+Theorem C15_completed_at_most_once : forall l t, Tokens.completions_of t (trun tinit l) <= starts_of t l.
 Proof. exact never_more_completions_than_starts. Qed.
 
 Theorem C15_field_names_keep_their_tail : forall c r, cap_first (String c r) = String (upper c) r.
@@ -27,8 +27,73 @@ Theorem C15_documented_names :
   = ["ExecutionArn"; "Input"; "Name"; "Output"; "StartDate"; "StateMachineArn"; "Status"; "StopDate"; "Error"; "Cause"]%string.
 Proof. exact documented_names. Qed.
 
+(* ---- child executions: Model/Children.v, for every run of launches, child progress, child ends, timeouts and cancellations ---- *)
+Theorem C15_child_record_only_from_a_terminal_child : forall l w t c ok,
+  crun cinit l = Some w -> In (t, VChild c ok) (done w) -> lookup c (kids w) = Some (CEnded ok).
+Proof. exact sync_completion_only_for_terminal_child. Qed.
+
+Theorem C15_terminal_child_leaves_no_task_pending : forall l w c ok,
+  Forall first_delivery l -> crun cinit l = Some w -> lookup c (kids w) = Some (CEnded ok) -> lookup c (pend w) = None.
+Proof. exact terminal_child_has_no_pending_task. Qed.
+
+Theorem C15_child_record_goes_to_the_launching_task : forall l w t c ok,
+  Forall first_delivery l -> crun cinit l = Some w -> In (t, VChild c ok) (done w) -> In (c, t) (started w).
+Proof. exact completion_goes_to_the_launching_task. Qed.
+
+Theorem C15_launch_completed_at_most_once : forall l w t, crun cinit l = Some w -> ChildrenProofs.completions_of t (done w) <= launches_of t l.
+Proof. exact completed_at_most_once_per_launch. Qed.
+
+Theorem C15_child_end_hands_over_in_the_same_invocation : forall w c clog cl ok q w' e,
+  lookup c (pend w) = Some q -> cstep w (IChildEnd c clog cl ok) = Some (w', e) ->
+  done w' = done w ++ [(q_task q, VChild c ok)] /\ lookup c (pend w') = None /\ lookup c (kids w') = Some (CEnded ok) /\
+  exists pre, e = pre ++ [XClearTimer (q_timer q)] ++ hist_if (q_plog q) (XHist (q_parent q) (if ok then KSucceeded else KFailed)) ++ [XAck (q_task q); XNotify c ok].
+Proof. exact child_end_hands_over_in_the_same_invocation. Qed.
+
+Theorem C15_async_launch_completes_at_once : forall w t p plog c n w' e,
+  cstep w (ILaunch t p plog FAsync c false n) = Some (w', e) ->
+  done w' = done w ++ [(t, VLaunched c)] /\ pend w' = pend w /\ exists mid_, e = XStart c true :: mid_ ++ [XAck t].
+Proof. exact async_launch_completes_at_once. Qed.
+
+Theorem C15_timeout_cancels_blocked_child : forall w n clog own c q m,
+  find_by_timer n (pend w) = Some (c, q) -> lookup c (kids w) = Some (CBlocked m) ->
+  exists w' e, cstep w (ITimeout n clog own) = Some (w', e) /\
+    In (XClearTimer m) e /\ In (XNotify c false) e /\ lookup c (kids w') = Some (CEnded false) /\ lookup c (pend w') = None /\
+    In (q_task q, VTimeout) (done w') /\
+    (forall cl b, cstep w' (IChildMove c cl b) = None) /\ (forall cg cl ok, cstep w' (IChildEnd c cg cl ok) = None).
+Proof. exact timeout_cancels_blocked_child. Qed.
+
+Theorem C15_termination_cancels_blocked_child : forall w t clog c q m,
+  find_by_task t (pend w) = Some (c, q) -> lookup c (kids w) = Some (CBlocked m) ->
+  exists w' e, cstep w (ICancel t clog) = Some (w', e) /\
+    In (XClearTimer (q_timer q)) e /\ In (XClearTimer m) e /\ In (XNotify c false) e /\
+    lookup c (kids w') = Some (CEnded false) /\ lookup c (pend w') = None /\ In (q_task q, VTerminated) (done w').
+Proof. exact cancel_reaches_blocked_child. Qed.
+
+(* known finding F34, as a statement about the model: a child that ends between a restart and the redelivery of its parent's Task *)
+Theorem C15_child_end_before_redelivered_launch_refuted :
+  exists w1 w3, crun cinit [ILaunch 5 0 true FSync 1 false 9] = Some w1 /\
+                crun (crash w1) [IChildEnd 1 true false true; ILaunch 5 0 true FSync 1 true 10] = Some w3 /\
+                lookup 1 (kids w3) = Some (CEnded true) /\ (exists q, lookup 1 (pend w3) = Some q /\ q_task q = 5) /\ done w3 = [] /\
+                (forall cg cl ok, cstep w3 (IChildEnd 1 cg cl ok) = None).
+Proof. exact child_end_before_redelivered_launch_refuted. Qed.
+
+(* non-vacuity: a run with a synchronous launch, a blocked child, a timeout; and one in which the child's record is handed over *)
+Example C15_child_runs_exist :
+  (exists w, crun cinit [ILaunch 5 0 true FSync 1 false 9; IChildMove 1 false (Some 10); ITimeout 9 true true] = Some w /\ In (5, VTimeout) (done w)) /\
+  (exists w, crun cinit [ILaunch 5 0 true FSync 1 false 9; IChildMove 1 false (Some 10); IChildEnd 1 true true true] = Some w /\ In (5, VChild 1 true) (done w)).
+Proof. split; eexists; (split; [reflexivity|cbn; auto]). Qed.
+
 Print Assumptions C15_callback_completes_exactly_its_task.
 Print Assumptions C15_foreign_token_affects_no_task.
 Print Assumptions C15_completed_at_most_once.
 Print Assumptions C15_field_names_keep_their_tail.
 Print Assumptions C15_documented_names.
+Print Assumptions C15_child_record_only_from_a_terminal_child.
+Print Assumptions C15_terminal_child_leaves_no_task_pending.
+Print Assumptions C15_child_record_goes_to_the_launching_task.
+Print Assumptions C15_launch_completed_at_most_once.
+Print Assumptions C15_child_end_hands_over_in_the_same_invocation.
+Print Assumptions C15_async_launch_completes_at_once.
+Print Assumptions C15_timeout_cancels_blocked_child.
+Print Assumptions C15_termination_cancels_blocked_child.
+Print Assumptions C15_child_end_before_redelivered_launch_refuted.
